@@ -143,29 +143,35 @@ def call_model(fn):
 # ------------------------------------------------------------------ TLC side
 def tlc_programs(ctx, exhaustive_cfg, sim_cfg=None, sim_num=0, sim_depth=14):
     """returns list of 'done' states of Script.tla (dicts) from an exhaustive run plus simulation"""
-    res = core.run_tlc("Script", exhaustive_cfg, dump=True, timeout=3000)
+    import json
+
+    res = core.run_tlc("Script", exhaustive_cfg, timeout=3000)
     ctx.tlc(res, exhaustive_cfg)
     if not res.ok:
         raise core.MachineryError(f"TLC reports {res.violated} on {exhaustive_cfg}:\n{res.out[-2000:]}")
-    states = [s for s in res.dump if s["stage"] == "done"]
+    states = [_norm(json.loads(pr[1])) for pr in res.printed if pr and pr[0] == "CASE"]
     if sim_cfg and sim_num:
         d = core.scratch_sub("sim")
         per = max(1, sim_num // core.NCPU)
-        sres = core.run_tlc("Script", sim_cfg, simulate=f"file={d}/tr,num={per}", depth=sim_depth, seed=ctx.seed + 1, timeout=1500)
+        sres = core.run_tlc("Script", sim_cfg, simulate=f"num={per}", depth=sim_depth, seed=ctx.seed + 1, timeout=1500)
         ctx.tlc(sres, sim_cfg + " (simulate)")
         if sres.violated:
             raise core.MachineryError(f"TLC simulation reports {sres.violated} on {sim_cfg}:\n{sres.out[-2000:]}")
         seen = set()
-        for beh in core.parse_sim_traces(d):
-            last = beh[-1][1]
-            if last.get("stage") == "done":
-                key = repr((last["prog"], last["ret"]))
-                if key not in seen:
-                    seen.add(key)
-                    states.append(last)
-        for fn in os.listdir(d):
-            os.remove(os.path.join(d, fn))
+        nsim = 0
+        for pr in sres.printed:
+            if pr and pr[0] == "CASE" and pr[1] not in seen:
+                seen.add(pr[1])
+                states.append(_norm(json.loads(pr[1])))
+                nsim += 1
+        ctx.set("simulated_programs", nsim)
     return states
+
+
+def _norm(c):
+    """JSON case -> the shape the harness uses (info.why merged in)"""
+    c["info"] = {"why": c.pop("why", []), "sel": c.pop("sel", [])}
+    return c
 
 
 def has_kind(b, kind):
